@@ -607,6 +607,13 @@ func (env *Env) call(x *SCall) Value {
 			env.fail("asIface: local address")
 		}
 		return Value{Typ: types.NewInterfaceType(nil, nil), L: []Term{env.enc.typeID(a.Typ), a.L[0]}}
+	case "ifval":
+		// ifval(i): the dynamic value (reference) held by the interface value i
+		a := env.eval(x.Args[0])
+		if len(a.L) != 2 {
+			env.fail("ifval: interface value expected")
+		}
+		return intVal(a.L[1])
 	case "isnil":
 		a := env.eval(x.Args[0])
 		return boolVal(Eq(a.L[0], I(0)))
